@@ -158,11 +158,12 @@ func (u *Upstream) closeWithError(ctx context.Context, causeError error, opts ..
 		v(&opt)
 	}
 
-	state := u.stateWithoutLock()
+	// only the two counters are needed, and both are atomic: stateWithoutLock() iterates maps that other goroutines
+	// update under u.mu (an acknowledgement granting aliases while Close is running), and u.mu may or may not be held here
 	resp, err := u.wireConn.SendUpstreamCloseRequest(ctx, &message.UpstreamCloseRequest{
 		StreamID:            u.ID,
-		TotalDataPoints:     state.TotalDataPoints,
-		FinalSequenceNumber: state.LastIssuedSequenceNumber,
+		TotalDataPoints:     atomic.LoadUint64(&u.totalDataPoints),
+		FinalSequenceNumber: u.sequence.CurrentValue(),
 		ExtensionFields: &message.UpstreamCloseRequestExtensionFields{
 			CloseSession: opt.CloseSession,
 		},
